@@ -99,7 +99,16 @@ def patch_rules(facts, rep, rule="C01-PATCH"):
             if f.path != ff.path:
                 continue
             e = norm(ex.rvalue(s["rv"], (bi, si)))
-            good = want[fld](e)
+            # every value the field can receive has the required provenance: a value chosen per method / per path (a φ) whose
+            # alternatives include some other quantity -- the plaintext count for a stored entry, say, which an encrypting layer
+            # makes 12 bytes short -- is not "the bytes between the entry's start and the sink's position"
+            def value_alts(x):
+                # the values the assignment can store: φ alternatives, looked at through value-preserving wrappers only
+                # (a φ inside a call argument -- which writer the position is asked of -- is not a choice of value)
+                while x[0] in ("ok", "cast"):
+                    x = x[1]
+                return [z for y in x[1] for z in value_alts(y)] if x[0] == "phi" else [x]
+            good = want[fld](e) and all(want[fld](a_) for a_ in value_alts(e))
             fs = dominating_facts(ff, ex, bi)
             raw_guard = any(x[0] == "truth" and x[2] is False and x[1][0] == "field" and x[1][2] == "writing_raw" for x in fs)
             found[fld] = True
